@@ -38,6 +38,9 @@ type Options struct {
 	// WrapStore, when set, receives the freshly populated MemoryStore and returns the storage
 	// handed to compose (a wrapper embedding the MemoryStore); World.Store stays the MemoryStore.
 	WrapStore func(st *storage.MemoryStore) interface{}
+	// TweakStrategy may fill in further parts of the composed strategy before compose.Compose runs
+	// (agentF2: OpenIDConnectTokenStrategy and jwt.Signer for the OpenID Connect factories).
+	TweakStrategy func(s *compose.CommonStrategy, cfg *fosite.Config)
 }
 
 func NewClient(id, secret string, cfg *fosite.Config) *fosite.DefaultClient {
@@ -87,6 +90,9 @@ func New(opt Options) *World {
 	strat := &compose.CommonStrategy{
 		CoreStrategy:        compose.NewOAuth2HMACStrategy(cfg),
 		RFC8628CodeStrategy: compose.NewDeviceStrategy(cfg),
+	}
+	if opt.TweakStrategy != nil {
+		opt.TweakStrategy(strat, cfg)
 	}
 	factories := []compose.Factory{
 		compose.OAuth2AuthorizeExplicitFactory,
